@@ -2,7 +2,13 @@
   C06 — Per-block GroupSize/GroupIndex sets are sound and exact.
 -/
 import TealerModel.Props.Common
+import TealerModel.Props.Tie
 namespace Tealer.C06
+
+/-- tie to today's source (constants and tables imported from /repo on this run) -/
+theorem C06_tie_source : Generated.sizesU = sizesU ∧ Generated.indicesU = indicesU ∧ Generated.MAX_GROUP_SIZE = MAX_GROUP_SIZE ∧
+    Generated.intBaseKeys = groupIndicesAnalysis.baseKeys :=
+  ⟨Tie.consts_tie.2.2.2.2.1, Tie.consts_tie.2.2.2.2.2.1, Tie.consts_tie.2.2.1, Tie.consts_tie.2.2.2.2.2.2.2.2.2.2.2.2.2⟩
 
 /-- leaf layer, field as first operand, all six operators, every constant: the true set lists exactly the
     values of the universe on which the comparison holds, the false set exactly the others -/
